@@ -114,9 +114,9 @@ func c11Schedules(c *mon.Ctx) {
 		}
 	}
 	// (1) re-entrant callbacks first (a lock held across a callback self-deadlocks in the very first schedule):
-	// 2x2 programs, three variants, maxInFlight 0 (every push delivers) - all interleavings
+	// 2x2 programs, four variants (callbacks calling Close / Maintain / PushMessage), maxInFlight 0 (every push delivers) - all interleavings
 	n := pow(len(alphaOneSeq), 4)
-	for _, re := range []int{sched.ReMaintain, sched.RePush, sched.ReLostMaintain} {
+	for _, re := range []int{sched.ReClose, sched.ReMaintain, sched.RePush, sched.ReLostMaintain} {
 		re := re
 		stride := c.Pick(8, 1)
 		c.ForEach(n/stride, func(w, i int) {
@@ -164,7 +164,7 @@ func c11Schedules(c *mon.Ctx) {
 		for k := range shape {
 			shape[k] = r.Range(1, 4)
 		}
-		p := &sched.Program{Max: mon.Pick(r, []int{0, 1, 2, 3}), Reenter: mon.Pick(r, []int{0, 0, 1, 2, 3})}
+		p := &sched.Program{Max: mon.Pick(r, []int{0, 1, 2, 3}), Reenter: mon.Pick(r, []int{0, 0, 1, 2, 3, 4})}
 		for _, n := range shape {
 			var t []sched.POp
 			for k := 0; k < n; k++ {
